@@ -924,7 +924,32 @@ impl MutableArchive {
             .unwrap_or(block_count);
         // (the builder writes no entry for the (attributes) block itself: one entry fewer)
         let attrs_bytes = Bytes::from(attrs_data);
-        let mut attrs = match [block_count, stored_count, stored_count.saturating_sub(1)]
+        // The row count the data was written for follows from its length: every row has the same
+        // width (the columns the flags name). Guessing a count that is too SMALL is accepted by the
+        // lenient parser, which then reads every column but the first from shifted offsets (after a
+        // second flush in one session the MD5 / FILETIME of all untouched files became garbage).
+        let rows_in_data = if attrs_bytes.len() >= 8 {
+            let flags = AttributeFlags::new(u32::from_le_bytes([
+                attrs_bytes[4],
+                attrs_bytes[5],
+                attrs_bytes[6],
+                attrs_bytes[7],
+            ]));
+            let width = usize::from(flags.has_crc32()) * 4
+                + usize::from(flags.has_filetime()) * 8
+                + usize::from(flags.has_md5()) * 16;
+            if width > 0 && !flags.has_patch_bit() && (attrs_bytes.len() - 8) % width == 0 {
+                Some((attrs_bytes.len() - 8) / width)
+            } else {
+                None
+            }
+        } else {
+            None
+        };
+        let mut attrs = match rows_in_data
+            .into_iter()
+            .chain([block_count, stored_count, stored_count.saturating_sub(1)])
+            .collect::<Vec<usize>>()
             .iter()
             .find_map(|&count| Attributes::parse(&attrs_bytes, count).ok())
             .ok_or(())
